@@ -437,6 +437,28 @@ def catalogue(ctx, present):
                 lambda t, lo=lo, hi=hi: list(t.keys(None if lo is None else K_(lo),
                                                     None if hi is None else K_(hi))))
     add('keys(excl)', 'read', lambda t: list(t.keys(K_(probes[0]), K_(probes[-1]), True, True)))
+    # every position of the grid as an (inclusive / exclusive) upper and lower bound: the range
+    # search repairs that step to a neighbouring leaf take and give back bucket references
+    allpos = list(range(len(d.grid)))
+    for p in allpos:
+        add('maxKey@%d' % p, 'read', lambda t, p=p: t.maxKey(K_(p)))
+        add('minKey@%d' % p, 'read', lambda t, p=p: t.minKey(K_(p)))
+        add('keys(max=%d,excl)' % p, 'read', lambda t, p=p: list(t.keys(None, K_(p), False, True)))
+        add('keys(min=%d,excl)' % p, 'read', lambda t, p=p: list(t.keys(K_(p), None, True, False)))
+        add('keys(max=%d)' % p, 'read', lambda t, p=p: list(t.keys(None, K_(p))))
+    add('keys(excl-omitted)', 'read', lambda t: list(t.keys(None, None, True, True)))
+    # lazy ranges that are only truth-tested / measured, for every pair of bounds
+    bpos = [None] + allpos
+    for lo in bpos:
+        for hi in bpos:
+            add('bool(keys(%r,%r))' % (lo, hi), 'iter',
+                lambda t, lo=lo, hi=hi: bool(t.keys(None if lo is None else K_(lo),
+                                                    None if hi is None else K_(hi))))
+    for lo in bpos[::2]:
+        for hi in bpos[1::2]:
+            add('len(keys(%r,%r))' % (lo, hi), 'iter',
+                lambda t, lo=lo, hi=hi: len(t.keys(None if lo is None else K_(lo),
+                                                   None if hi is None else K_(hi))))
     if ismap:
         add('items()', 'read', lambda t: list(t.items()))
         add('values(min)', 'read', lambda t: list(t.values(K_(probes[0]))))
